@@ -142,6 +142,18 @@ def check_instance(inst, env, variant=0):
         return [("metric-raises", "metric raised %s: %s" % (type(e).__name__, str(e)[:160]))]
     if Mc.shape != M.shape or not np.allclose(Mc, M, rtol=RTOL, atol=ATOL):
         out.append(("fisher", "metric %s differs from the Fisher information %s" % (np.round(Mc, 6).tolist(), np.round(M, 6).tolist())))
+    # the energy itself: its gradient is the score the Fisher information belongs to (instances that carry G)
+    if inst.get("G"):
+        try:
+            ge = np.array([q(v) for v in inst["G"]])
+            gc = flatten(jax.grad(lambda t: lh.energy(t))(p), jax)
+            if gc.shape != ge.shape or not np.allclose(gc, ge, rtol=RTOL, atol=ATOL):
+                out.append(("energy-gradient", "gradient of the energy %s differs from the score of the distribution %s" % (np.round(gc, 8).tolist(), np.round(ge, 8).tolist())))
+            e1, e2 = float(lh.energy(p)), float(lh(p))
+            if not np.isclose(e1, e2, rtol=1e-13):
+                out.append(("energy-call", "calling the likelihood gives %r, its energy %r" % (e2, e1)))
+        except Exception as e:
+            out.append(("energy-raises", "%s: %s" % (type(e).__name__, str(e)[:160])))
     # factorisation on the declared tangent space of the square root
     try:
         lsm = zeros_of_shape(lh.lsm_tangents_shape, jax, jnp)
@@ -281,7 +293,7 @@ def batched_checks(env, emitted):
 
 def run(ctx):
     env = _jax()
-    r = ctx.tlc("LikelihoodRe", "SPECIFICATION Spec\nINVARIANT Symmetric\nINVARIANT PositiveDiagonal\nINVARIANT Hermitian\nINVARIANT Emit\n", label="all instances", workers=1, timeout=900)
+    r = ctx.tlc("LikelihoodRe", "SPECIFICATION Spec\nINVARIANT Symmetric\nINVARIANT PositiveDiagonal\nINVARIANT Hermitian\nINVARIANT ScoreLaw\nINVARIANT Emit\n", label="all instances", workers=1, timeout=900)
     insts = r.emitted
     if len(insts) < 100:
         raise tlcmod.MachineryError("too few instances emitted: %d" % len(insts))
